@@ -22,14 +22,14 @@ type Event struct {
 
 // Trace is the result of one partition of the trace set.
 type Trace struct {
-	Ret    AVal
-	Events []Event
-	PC     map[string]int // decided atoms
-	Order  []string       // atoms in decision order
-	Converged bool        // partition pruned at a loop header whose abstract state repeated (covered by sibling partitions)
-	Cut    string         // non-empty: exploration of this partition was abandoned (undecided)
-	Panic  string         // non-empty: a panic is reachable on this partition
-	PanicAt ssa.Instruction
+	Ret       AVal
+	Events    []Event
+	PC        map[string]int // decided atoms
+	Order     []string       // atoms in decision order
+	Converged bool           // partition pruned at a loop header whose abstract state repeated (covered by sibling partitions)
+	Cut       string         // non-empty: exploration of this partition was abandoned (undecided)
+	Panic     string         // non-empty: a panic is reachable on this partition
+	PanicAt   ssa.Instruction
 }
 
 // Model gives the abstract semantics of a callee. ok=false: fall through to the default.
@@ -39,31 +39,31 @@ type Model func(in *Interp, site ssa.Instruction, cc *ssa.CallCommon, args []AVa
 type Interp struct {
 	P        *Prog
 	Models   map[string]Model
-	NoInline map[string]bool                                       // repo functions kept uninterpreted
+	NoInline map[string]bool                                          // repo functions kept uninterpreted
 	BinHook  func(in *Interp, op token.Token, x, y AVal) (AVal, bool) // client domain
 	// TableHook: a constant table (package-level map or array literal) is indexed with a value of a
 	// client domain (a kind token): the client partitions the trace on the table's distinct values.
 	// valueOf(k) is the table's entry for the integer k (ok=false: no such index/key).
-	TableHook func(in *Interp, idx AVal, valueOf func(k int64) (AVal, bool), zero AVal) (AVal, bool)
-	ConvHook func(in *Interp, x AVal, to types.Type) (AVal, bool)
-	LenHook  func(in *Interp, x AVal) (AVal, bool)
-	AtomHook func(in *Interp, atom string) (int, bool) // pre-decided atoms
-	MaxSteps int
-	MaxDepth int
-	Monitored map[string]bool // event kinds that are part of the abstract state (default: "write")
-	WidenAfter int // arrivals at a loop header that keep concrete loop-carried values (unrolling) before widening starts
-	MaxLoop  int // visits of one loop header per trace before the partition is cut
+	TableHook  func(in *Interp, idx AVal, valueOf func(k int64) (AVal, bool), zero AVal) (AVal, bool)
+	ConvHook   func(in *Interp, x AVal, to types.Type) (AVal, bool)
+	LenHook    func(in *Interp, x AVal) (AVal, bool)
+	AtomHook   func(in *Interp, atom string) (int, bool) // pre-decided atoms
+	MaxSteps   int
+	MaxDepth   int
+	Monitored  map[string]bool // event kinds that are part of the abstract state (default: "write")
+	WidenAfter int             // arrivals at a loop header that keep concrete loop-carried values (unrolling) before widening starts
+	MaxLoop    int             // visits of one loop header per trace before the partition is cut
 
 	TraceStores bool // emit a "store-cell" event for stores into labelled (symbolic) cells
-	SnapshotPC bool // events carry a copy of the decided atoms
-	stack      []*ssa.Function
-	EagerWiden bool // loop-carried values are abstracted to a loop-variant symbol from the first arrival on
-	MaybeNil  func(key string) bool // symbolic pointers that may be nil (dereference partitions on nil-ness)
-	ForgetAll bool   // at a repeated loop-header arrival forget every atom decided inside the loop (walker mode)
-	ResetHook func() // called at the start of every trace
-	journal   []journalEntry
-	Variant   func(key string) bool // keys that denote a different value in every loop iteration
-	invCount  map[*ssa.Function]int
+	SnapshotPC  bool // events carry a copy of the decided atoms
+	stack       []*ssa.Function
+	EagerWiden  bool                  // loop-carried values are abstracted to a loop-variant symbol from the first arrival on
+	MaybeNil    func(key string) bool // symbolic pointers that may be nil (dereference partitions on nil-ness)
+	ForgetAll   bool                  // at a repeated loop-header arrival forget every atom decided inside the loop (walker mode)
+	ResetHook   func()                // called at the start of every trace
+	journal     []journalEntry
+	Variant     func(key string) bool // keys that denote a different value in every loop iteration
+	invCount    map[*ssa.Function]int
 
 	decisions []int
 	maxes     []int
@@ -82,7 +82,7 @@ type Interp struct {
 	// a string accumulator (content kept per cell); loops widen a content that keeps changing
 	LocalBuilders bool
 	bld           map[*Cell]AVal
-	hdrCache  map[*ssa.Function]map[*ssa.BasicBlock]bool
+	hdrCache      map[*ssa.Function]map[*ssa.BasicBlock]bool
 }
 
 type journalEntry struct {
@@ -1521,7 +1521,6 @@ func (t Trace) Describe() string {
 	return sb.String()
 }
 
-
 // stripTypeSuffix: "X.Type()" denotes the same kind as X (kind-alias classes).
 func stripTypeSuffix(k string) string {
 	for strings.HasSuffix(k, ".Type()") {
@@ -1529,7 +1528,6 @@ func stripTypeSuffix(k string) string {
 	}
 	return k
 }
-
 
 // localBuilder: methods of a strings.Builder held in a local cell of an interpreted function.
 func (in *Interp) localBuilder(method string, args []AVal) (AVal, bool) {
